@@ -30,6 +30,9 @@ type vfFault struct {
 	MoveLeader string `json:"move,omitempty"`
 	DelayUs    int    `json:"delayUs,omitempty"`
 	Gate       string `json:"gate,omitempty"` // hold the response until the script releases this gate
+	// LeaderlessFor > 0: before handling, the partition loses its leader; it gets the old one back after that many further
+	// metadata answers (so the client's first re-dispatch attempts find no leader)
+	LeaderlessFor int `json:"leaderlessFor,omitempty"`
 }
 
 // ---------------------------------------------------------------- history
@@ -171,6 +174,12 @@ type vfSim struct {
 	fetchRounds int64                   // atomic: fetch-part answers produced (load-independent progress unit)
 	lastFetchOff map[string]int64       // newest fetch offset seen per "fetch/topic/part"
 	dataRounds   map[string]int64       // per "fetch/topic/part": fault-free fetch answers that carried data
+	leaderBack   map[string]*vfLeaderBack // "topic/part" -> pending restoration of a leader
+}
+
+type vfLeaderBack struct {
+	remaining int
+	leader    int32
 }
 
 type vfMetaServed struct {
@@ -475,6 +484,19 @@ func (s *vfSim) makeUnreachable(kind string) {
 	for _, id := range ids {
 		s.setBrokerUp(id, false)
 	}
+}
+
+// leaderlessLocked takes the leader away and schedules its return after n further metadata answers naming the topic.
+func (s *vfSim) leaderlessLocked(topic string, part int32, n int) {
+	t := s.topics[topic]
+	if t == nil || t.Parts[part] == nil || t.Parts[part].Leader < 0 {
+		return
+	}
+	if s.leaderBack == nil {
+		s.leaderBack = map[string]*vfLeaderBack{}
+	}
+	s.leaderBack[fmt.Sprintf("%s/%d", topic, part)] = &vfLeaderBack{remaining: n, leader: t.Parts[part].Leader}
+	s.moveLeaderLocked(topic, part, -1)
 }
 
 func (s *vfSim) moveLeader(topic string, part int32, to int32) {
@@ -829,6 +851,24 @@ func (c *vfSimConn) handleMetadata(version int16, body []byte) ([]byte, string) 
 				w.i32arr(p.Offline)
 			}
 			tv.Parts[p.ID] = &vfMetaPartVw{Err: perr, Leader: p.Leader, Replicas: append([]int32(nil), p.Replicas...), Isr: append([]int32(nil), p.Isr...), Offline: append([]int32(nil), p.Offline...)}
+		}
+	}
+	for key, lb := range s.leaderBack {
+		tp := strings.SplitN(key, "/", 2)
+		included := all
+		for _, n := range names {
+			if n == tp[0] {
+				included = true
+			}
+		}
+		if !included {
+			continue
+		}
+		lb.remaining--
+		if lb.remaining <= 0 {
+			pn, _ := strconv.Atoi(tp[1])
+			s.moveLeaderLocked(tp[0], int32(pn), lb.leader)
+			delete(s.leaderBack, key)
 		}
 	}
 	seq := s.hist.add(vfEvent{Kind: "metadata-served", Broker: c.broker.ID, Conn: c.id, Note: strings.Join(names, ",")}, false)
